@@ -706,7 +706,7 @@ func c19Finish(c *engine.Ctx, cov map[string]interface{}) string {
 func init() {
 	register(&engine.Check{
 		ID: "C19", Level: "model_checking",
-		Rule: "all write histories of ≤3 typed writes (27 op/value pairs: every width, signed and unsigned boundary values, byte strings of 0,1,3 bytes; 4-write histories over a 12-op core in thorough) × {big, little} endian: writer bytes vs encoding/binary, then read back on 15 backends/environment behaviours (memory, Bytes() reader, ReadSeeker n/-1/1-byte chunks/EOF-with-data, ReaderAt with nil or EOF on exact fit, plain reader -1/n/chunked/EOF-with-data, *os.File, mmap path, mmap file) with the data truncated at every byte; Seek from every position × every offset in [-L-1,L+1] × whence 0..3 and Read/ReadAt for every (pos,len) on L≤6 bytes vs bytes.Reader and the io contracts; every bit string ≤17 bits through BitmapWriter→BitmapReader and every buffer ≤2 bytes through BitmapReader",
+		Rule:        "all write histories of ≤3 typed writes (27 op/value pairs: every width, signed and unsigned boundary values, byte strings of 0,1,3 bytes; 4-write histories over a 12-op core in thorough) × {big, little} endian: writer bytes vs encoding/binary, then read back on 15 backends/environment behaviours (memory, Bytes() reader, ReadSeeker n/-1/1-byte chunks/EOF-with-data, ReaderAt with nil or EOF on exact fit, plain reader -1/n/chunked/EOF-with-data, *os.File, mmap path, mmap file) with the data truncated at every byte; Seek from every position × every offset in [-L-1,L+1] × whence 0..3 and Read/ReadAt for every (pos,len) on L≤6 bytes vs bytes.Reader and the io contracts; every bit string ≤17 bits through BitmapWriter→BitmapReader and every buffer ≤2 bytes through BitmapReader",
 		Assumptions: []string{"a reader may legally deliver io.EOF together with the last bytes, and a ReaderAt may return io.EOF or nil when a read ends exactly at the end", "Seek targets outside [0,Len] may be rejected (position unchanged) or accepted"},
 		Setup:       c19Setup, Work: c19Work, Finish: c19Finish,
 	})
